@@ -113,6 +113,7 @@ def _rule_grid_rotation(check, repo: Repo) -> None:
 def run(check, repo: Repo) -> None:
     mod = repo.module(DP)
     _rule_grid_rotation(check, repo)
+    _rule_state_accessors(check, repo)
     _, rec = repo.func(f"{DP}:DirectPtychography.reconstruct")
     _, ker = repo.func(f"{DP}:DirectPtychography._return_kernel_contributions")
     _, pre = repo.func(f"{DP}:DirectPtychography._preprocess")
@@ -135,6 +136,27 @@ def run(check, repo: Repo) -> None:
     ok = unparse(bdef.args[0]) == "num_bf" and is_const(kwarg(bdef, "shuffle"), False) and kwarg(bdef, "val_ratio") is None
     check.decide(ok, "C04-R1", "reconstruct: the batcher partitions all selected bright-field pixels (no shuffle, no validation split)", unparse(bdef), mod.line(bdef),
                  fail_detail=f"`{unparse(bdef)}`")
+    # options beyond (size, shuffle, rng): an option that makes the batcher yield an index in more than one batch turns every additive aggregate
+    # of the two-pass kernels into a double count (batch invariance is lost for batch sizes that do not divide the pixel count)
+    extra = [k for k in bdef.keywords if k.arg not in ("batch_size", "shuffle", "rng", "val_ratio", None)]
+    if any(k.arg is None for k in bdef.keywords):
+        raise AnalysisError("reconstruct: SimpleBatcher(**options) — options not enumerable")
+    for k in extra:
+        PU_ = "quantem.diffractive_imaging.ptycho_utils"
+        bm, it_fn = repo.func(f"{PU_}:SimpleBatcher.__iter__")
+        if not (isinstance(k.value, ast.Constant)):
+            raise AnalysisError(f"reconstruct: SimpleBatcher option `{k.arg}` is not a constant — not decided")
+        arms = [n for n in ast.walk(it_fn) if isinstance(n, ast.If) and any(dotted(x) == f"self.{k.arg}" for x in ast.walk(n.test))]
+        if not arms:
+            raise AnalysisError(f"reconstruct: SimpleBatcher option `{k.arg}` is not recognised")
+        dup = [c for a in arms for st_ in (a.body if bool(k.value.value) else a.orelse) for c in ast.walk(st_)
+               if isinstance(c, ast.Call) and (call_name(c) or "").split(".")[-1] in ("concatenate", "hstack", "append", "extend", "tile", "resize", "pad")]
+        key_ = f"reconstruct: SimpleBatcher option `{k.arg}={unparse(k.value)}` keeps the batches a partition of the bright-field pixels"
+        if dup:
+            check.violated("C04-R1", key_, f"with this option SimpleBatcher.__iter__ executes `{unparse(dup[0])[:70]}`: a batch is filled up with indices that another batch already "
+                           f"delivered, so the per-batch sums of the two-pass kernels count those pixels twice — the result depends on max_batch_size", bm.line(dup[0]), definite=True)
+        else:
+            raise AnalysisError(f"reconstruct: effect of SimpleBatcher option `{k.arg}` on the partition not decided")
     # no code path is selected by the NUMBER or SIZE of the batches (defaulting `if max_batch_size is None` aside): a fast path for "everything fits
     # in one batch" computes something the batched path must reproduce exactly, step for step
     bname = loops[0].iter.id
@@ -445,6 +467,60 @@ def _inline(fn, e: ast.AST, depth: int = 0) -> ast.AST:
     return T().visit(ast.parse(unparse(e), mode="eval").body)
 
 
+def _rule_state_accessors(check, repo: Repo) -> None:
+    """C04-R11 — the hyper-parameter accessors build their result in a dict of their own: a working dict that may be the stored
+    `initial_aberrations` / `optimized_aberrations` object itself must not be modified (an override given to one reconstruct() call would
+    otherwise persist into every later call — the same object, the same arguments, a different image)."""
+    from ..core.cfg import CFG
+    mod, cls = repo.cls(f"{DP}:HyperparameterState")
+    MUT = {"update", "pop", "setdefault", "clear", "popitem", "__setitem__"}
+    n = 0
+    for fn in [f for f in cls.body if isinstance(f, ast.FunctionDef)]:
+        muts = []
+        for c in calls_in(fn):
+            if isinstance(c.func, ast.Attribute) and c.func.attr in MUT and isinstance(c.func.value, ast.Name):
+                muts.append((c.func.value.id, c))
+        for x in ast.walk(fn):
+            if isinstance(x, (ast.Assign, ast.AugAssign)):
+                for t in (x.targets if isinstance(x, ast.Assign) else [x.target]):
+                    if isinstance(t, ast.Subscript) and isinstance(t.value, ast.Name):
+                        muts.append((t.value.id, x))
+        if not muts:
+            continue
+        cfg = CFG(fn)
+        for name, site in muts:
+            if name in func_params(fn) and not definitions(fn, name):
+                continue
+            defs = [d for d in definitions(fn, name) if isinstance(d, ast.AST)]
+            if not defs:
+                continue
+            n += 1
+
+            def may_alias(e):
+                if isinstance(e, ast.Attribute) and dotted(e.value) == "self":
+                    return True
+                if isinstance(e, ast.IfExp):
+                    return may_alias(e.body) or may_alias(e.orelse)
+                if isinstance(e, ast.BoolOp):
+                    return any(may_alias(v) for v in e.values)
+                if isinstance(e, ast.Name) and e.id != name:
+                    return any(may_alias(d) for d in definitions(fn, e.id) if isinstance(d, ast.AST))
+                return False
+            alias_defs = [d for d in defs if may_alias(d)]
+            site_nodes = cfg.node_containing(site)
+            bad = None
+            for d in alias_defs:
+                dn = cfg.node_containing(d)
+                others = [m for o in defs if o is not d for m in cfg.node_containing(o)]
+                if dn and site_nodes and any(sn in cfg.reachable_from(dn[0], avoid=others) for sn in site_nodes):
+                    bad = d
+                    break
+            check.decide(bad is None, "C04-R11", f"HyperparameterState.{fn.name}: `{name}` is a dict of its own when `{unparse(site)[:40]}` modifies it", "", mod.line(site), definite=True,
+                         fail_detail=f"`{name} = {unparse(bad)[:50] if bad is not None else ''}` can reach `{unparse(site)[:50]}` without an intervening copy: the stored hyper-parameter dict "
+                                     f"itself is modified, so an override passed to one call leaks into all later calls on the same object (history-dependent reconstructions)")
+    check.floor("HyperparameterState: modified working dicts", n, 1)
+
+
 MANIFEST = {
     "text": "Decides the structural conditions of batch invariance and linearity for every kernel, mask and batch size: in the "
             "per-batch region (both batcher loops and the kernel function) every reduction keeps the batch axis or is the plain "
@@ -461,3 +537,4 @@ MANIFEST = {
 }
 MANIFEST["text"] += ' Also: optional numeric hyper-parameters are never used as truth values (R6: an explicit 0 is a value); the bright-field crop window is inclusive of the outermost mask pixel, extent = max − min + 2·pad + 1 per axis (R7, algebraic normal form).'
 MANIFEST["text"] += " R10: _passively_rotate_grid is executed symbolically (tuple assignment = simultaneous) and its result compared, as rational normal forms, with a rotation: |k'|² = (cos²+sin²)|k|² and k' = R(−angle)k."
+MANIFEST["text"] += " R11: the hyper-parameter accessors modify only dicts of their own (CFG reaching definitions: no stored dict reaches an in-place update); R1 also evaluates extra SimpleBatcher options passed by reconstruct against the arms of SimpleBatcher.__iter__ they select (an arm that fills a batch with already delivered indices breaks the partition)."
